@@ -110,11 +110,13 @@ pub struct NetCfg {
     pub fault: Option<Fault>,
     /// Abort (error on the sink) when more than this many frames were written in one direction.
     pub frame_budget: usize,
+    /// Keep the full frame trace (disable for heap measurements).
+    pub keep_trace: bool,
 }
 
 impl Default for NetCfg {
     fn default() -> Self {
-        Self { capacity: 0, delivery: Delivery::Eager, drop_visible: true, fault: None, frame_budget: 200_000 }
+        Self { capacity: 0, delivery: Delivery::Eager, drop_visible: true, fault: None, frame_budget: 200_000, keep_trace: true }
     }
 }
 
@@ -150,6 +152,7 @@ struct Inner {
     cfg: NetCfg,
     links: [Link; 2],
     trace: Vec<TraceEntry>,
+    next_seq: usize,
     step: u64,
     mon: Option<WireMon>,
     budget_exceeded: bool,
@@ -170,6 +173,7 @@ impl Net {
                 cfg,
                 links: [Link::default(), Link::default()],
                 trace: Vec::new(),
+                next_seq: 0,
                 step: 0,
                 mon,
                 budget_exceeded: false,
@@ -440,8 +444,11 @@ impl Sink<Bytes> for NetSink {
         }
         g.step += 1;
         let step = g.step;
-        let seq = g.trace.len();
-        g.trace.push(TraceEntry { seq, dir, bytes: item.clone(), put_step: step, deliver_step: None });
+        let seq = g.next_seq;
+        g.next_seq += 1;
+        if g.cfg.keep_trace {
+            g.trace.push(TraceEntry { seq, dir, bytes: item.clone(), put_step: step, deliver_step: None });
+        }
         g.sig.add(&[dir.idx() as u8, 0, item.first().copied().unwrap_or(0)]);
         if let Some(mon) = g.mon.as_mut() {
             mon.on_put(dir, seq, &item);
@@ -549,7 +556,9 @@ impl Stream for NetStream {
             if let Some(w) = l.writer_waker.take() {
                 w.wake();
             }
-            g.trace[seq].deliver_step = Some(step);
+            if g.cfg.keep_trace {
+                g.trace[seq].deliver_step = Some(step);
+            }
             g.sig.add(&[dir.idx() as u8, 1]);
             if let Some(mon) = g.mon.as_mut() {
                 mon.on_deliver(dir, seq);
